@@ -14,7 +14,10 @@ stated here as `PixelCovers` (imshow) and in the wording of `vector_at_centres` 
 * `quiver(X, Y, U, V, C)` draws arrow `(U[r][c], V[r][c])` with colour `C[r][c]` at `(X[c], Y[r])`;
 * NaN pixels (`none`) and arrows with a NaN component are not drawn.
 
-Property theorems only; helper lemmas live in `DFV/Lemmas/C20*.lean`.
+Property theorems only; helper lemmas, the per-axis contract `AxisCovers`, the label predicate
+`EndsWithLabels` and the closed example fields `exS`, `exV`, `exOnes`, `exFine` (2×3 mesh on
+`[0,4]×[0,6]`, cell (0,2) invalid) used by the non-vacuity `example`s live in
+`DFV/Lemmas/C20{Si,Img,Plot}.lean`.
 -/
 namespace DFV.C20
 open DFV
@@ -23,28 +26,6 @@ open DFV
 `origin="lower"` and `extent = [x0, x1, y0, y1]` covers the point `(x, y)` -/
 def PixelCovers (R C : Nat) (ext : List Rat) (r c : Nat) (x y : Rat) : Prop :=
   AxisCovers C (ext.getD 0 0) (ext.getD 1 0) c x ∧ AxisCovers R (ext.getD 2 0) (ext.getD 3 0) r y
-
-/-! ## examples used for non-vacuity -/
-
-def exRegion : Region :=
-  { pmin := [0, 0], pmax := [4, 6], dims := ["x", "y"], units := ["m", "m"], tol := 1/1000000000000 }
-def exMesh : Mesh := { region := exRegion, n := [2, 3], bc := "", subs := [] }
-/-- scalar field with values 1..6 (C order), cell (0, 2) invalid -/
-def exS : Fld :=
-  { mesh := exMesh, nvdim := 1, data := NDA.ofList [2, 3] [[1], [2], [3], [4], [5], [6]] [],
-    valid := NDA.ofList [2, 3] [true, true, false, true, true, true] false,
-    vdims := none, vmap := [], unit := none }
-/-- 3-component field, labels a b c, `a ↦ y`, `b ↦ x`, `c ↦ z` -/
-def exV : Fld :=
-  { mesh := exMesh, nvdim := 3,
-    data := NDA.ofList [2, 3] [[0, 1, 2], [3, 4, 5], [6, 7, 8], [9, 10, 11], [12, 13, 14], [15, 16, 17]] [],
-    valid := NDA.ofList [2, 3] [true, true, false, true, true, true] false,
-    vdims := some ["a", "b", "c"], vmap := [("a", "y"), ("b", "x"), ("c", "z")], unit := none }
-/-- filter that is non-zero everywhere -/
-def exOnes : Fld := { exS with data := NDA.ofList [2, 3] [[1], [1], [1], [1], [1], [1]] [],
-                               valid := NDA.ofList [2, 3] [true, true, true, true, true, true] false }
-
-theorem exMesh_inv : exMesh.Inv := mesh_inv_of_invB exMesh (by decide +kernel)
 
 /-! ## scalar plot: the value drawn at a physical point is the field value of its cell -/
 
@@ -191,6 +172,40 @@ theorem scalar_filter_hides_zero (f flt : Fld) (o : Opts) (calls : List PlotCall
   refine ⟨_, ext, lab, hc, fun i j => ?_⟩
   rw [imgOf_get _ hlen, hget]
   simp
+
+/-- **Filter on another resolution.**  A `filter_field` whose cell counts differ from the
+field's is resampled onto the field's cell counts over the FILTER's region: the value deciding
+cell `i` is the value of the filter cell whose centre is nearest (per axis) to the centre of
+cell `i` of that re-gridded region (C07's nearest-neighbour lookup). -/
+theorem filter_other_resolution (f flt : Fld) (keep : NDA Bool) (hn : flt.mesh.n ≠ f.mesh.n)
+    (hk : filterKeep f flt = .ok keep) :
+    ∃ m : Mesh, m.region = flt.mesh.region ∧ m.n = f.mesh.n ∧
+      ∀ i, keep.get i =
+        !decide ((flt.data.get (tab flt.mesh.ndim fun a =>
+            C07.nearestAx flt.mesh a (C07.coord m a (i.getD a 0)))).getD 0 0 = 0) := by
+  obtain ⟨_, _, a, ha, _, hget⟩ := filterKeep_ok_inv f flt keep hk
+  unfold auxOnMesh at ha
+  rw [if_neg hn] at ha
+  split at ha
+  · cases ha
+  · rename_i h hr
+    injection ha with ha
+    obtain ⟨m, hm, _, hd⟩ := resample_data flt _ h hr
+    obtain ⟨hreg, hmn⟩ := mkN_ok_inv _ _ m hm
+    have hid : List.map Int.toNat (List.map Int.ofNat f.mesh.n) = f.mesh.n := by
+      rw [List.map_map]
+      conv => rhs; rw [← List.map_id f.mesh.n]
+      apply List.map_congr_left
+      intro a _
+      simp
+    refine ⟨m, hreg, by rw [hmn, hid], fun i => ?_⟩
+    rw [hget i, ← ha, hd]
+    rfl
+
+/-- Non-vacuity of `filter_other_resolution`: a 4 × 3 filter on the 2 × 3 example field. -/
+example : okB (filterKeep exS exFine) = true ∧ exFine.mesh.n ≠ exS.mesh.n ∧
+    okB (mplScalar exS { filter := some exFine }) = true := by
+  decide +kernel
 
 /-- The full-strength reading of the property ("invalid cells are never drawn") is FALSE of
 the code as modelled: with an explicit filter that is non-zero everywhere, the invalid cell
